@@ -4,13 +4,15 @@ import Blue.Driver.Util
     the real `KeyValueStore` under client, flush and compaction threads, as recorded by the
     `lsmtk::verif` event hooks, replayed through `Blue.KvsConc.step`.  Every event must be enabled;
     the first one that is not is reported (`stuck@<index>:<token>`); an insert into a table the
-    flush thread has already taken is reported as `insert-into-flushed-table@…`.  The hypothesis of
+    flush thread has already taken is reported as `insert-into-flushed-table@…`, a failed write
+    that leaves the wait list out of its turn as `failed-write-left-out-of-turn@…`.  The hypothesis of
     `snapshot_tree_consistent` is checked on the trace: between a reader's `T` and its `S` no step
     that needs the store mutex may occur, and the snapshot must be clean — otherwise
     `stuck@<index>:tree-snapshot-outside-lock`.
 
     tokens  `B<seq>,<mem>,<k>=<v>;<k>!;…` write began (sequence number, memtable picked, batch)
             `L<seq>` log appended   `I<seq>,<idx>` entry inserted   `F<seq>` left the wait list
+            `X<seq>` the write failed and left the wait list (nothing published)
             `R<new>,<old>` rotate mem→imm   `H<new>` flush thread passed the wait list
             `N<old>,<vid>` tree version `vid` with the flushed file installed   `C<old>` imm cleared
             `V<vid>` tree version `vid` installed by a compaction
@@ -58,6 +60,7 @@ def parseTok (t : String) : Option Tok :=
     | some [q, i] => some (.ev (.wIns q i))
     | _ => none
   | 'F' :: rest => (optNat (String.ofList rest)).map (fun q => .ev (.wFin q))
+  | 'X' :: rest => (optNat (String.ofList rest)).map (fun q => .ev (.wFail q))
   | 'R' :: rest =>
     match nats (String.ofList rest) with
     | some [n, o] => some (.ev (.fRotate n o))
@@ -124,6 +127,10 @@ def replay : St → Nat → List String → List String → String
       let closed := match e with
         | .wIns q _ => !(insertsIntoOpenTable s q)
         | _ => false
+      -- the repaired `write` sends a failed write through the common exit: it leaves as head
+      let outOfTurn := match e with
+        | .wFail q => !(failedLeavesAtHead s q)
+        | _ => false
       -- a reader holds a tree version and has not yet taken mem / imm: in the code that is inside
       -- one critical section of the store mutex, so no other step that needs that mutex can follow
       let owner : Option Nat := match e with
@@ -131,7 +138,7 @@ def replay : St → Nat → List String → List String → String
         | .rTree rid _ => some rid
         | _ => none
       let needsMutex := match e with
-        | .wBegin .. | .wFin _ | .fRotate .. | .fHead _ | .fClear _ | .rSnap .. | .rTree .. => true
+        | .wBegin .. | .wFin _ | .wFail _ | .fRotate .. | .fHead _ | .fClear _ | .rSnap .. | .rTree .. => true
         | _ => false
       let outside := needsMutex && s.trees.any (fun p => some p.1 != owner)
       -- … and the snapshot it ends up with must be clean (no `imm := none` in between)
@@ -141,6 +148,7 @@ def replay : St → Nat → List String → List String → String
       if outside || unclean then s!"stuck@{i}:tree-snapshot-outside-lock"
       else if dup then s!"panic-dup-insert@{i}:{t} obs={rObs obs}"
       else if closed then s!"insert-into-flushed-table@{i}:{t}"
+      else if outOfTurn then s!"failed-write-left-out-of-turn@{i}:{t}"
       else
         match step s e with
         | none => s!"stuck@{i}:{t}"
